@@ -2,10 +2,10 @@ package main
 
 import (
 	"fmt"
-	"strings"
 	"go/token"
 	"go/types"
 	"math/big"
+	"strings"
 
 	"golang.org/x/tools/go/ssa"
 )
@@ -196,14 +196,40 @@ func (fr *Frame) execInstr(in ssa.Instruction) {
 		fr.oblige("make", fr.locText(x.Pos(), "make"), and(ar.cmp("<=", idxT, ex.idx(0), ln), ar.cmp("<=", idxT, ln, cp), ar.cmp("<=", idxT, cp, ar.lit(idxT, pow2(maxLenBits+1)))), x.Pos())
 		a := ex.alloc(fr.st, "make")
 		fr.set(x, &Val{C: []*Val{sv(a), sv(ex.idx(0)), sv(ln), sv(cp)}})
-	case *ssa.MakeMap, *ssa.MakeChan:
-		fr.set(x.(ssa.Value), sv(ex.alloc(fr.st, "mk")))
+	case *ssa.MakeMap:
+		fr.set(x, sv(ex.alloc(fr.st, "mk")))
+		// a map that is only built and queried inside this function (a set/table
+		// literal) is modelled exactly: its entries are tracked by the executor
+		local := true
+		for _, r := range *x.Referrers() {
+			switch u := r.(type) {
+			case *ssa.MapUpdate:
+				local = local && u.Map == ssa.Value(x) && u.Block() == x.Block()
+			case *ssa.Lookup:
+				local = local && u.X == ssa.Value(x)
+			case *ssa.DebugRef:
+			default:
+				local = false
+			}
+		}
+		if local {
+			if fr.localMaps == nil {
+				fr.localMaps = map[ssa.Value]*localMap{}
+			}
+			fr.localMaps[x] = &localMap{}
+		}
+	case *ssa.MakeChan:
+		fr.set(x, sv(ex.alloc(fr.st, "mk")))
 	case *ssa.MakeClosure:
 		fr.set(x, sv(ex.alloc(fr.st, "closure")))
 	case *ssa.Lookup:
 		fr.lookup(x)
 	case *ssa.MapUpdate:
 		fr.oblige("nil", fr.locText(x.Pos(), "map update "+x.Map.Name()), not(eq(fr.val(x.Map).T, "nil")), x.Pos())
+		if lm := fr.localMaps[x.Map]; lm != nil {
+			lm.keys = append(lm.keys, fr.val(x.Key))
+			lm.vals = append(lm.vals, fr.val(x.Value))
+		}
 	case *ssa.Range:
 		fr.set(x, sv("nil"))
 	case *ssa.Next:
@@ -288,6 +314,10 @@ func (fr *Frame) unop(x *ssa.UnOp) {
 	case token.SUB:
 		it := intTOf(x.Type())
 		if it == nil {
+			if isFloat64(x.Type()) {
+				fr.set(x, sv(ex.q.def("f", SF64, "(fp.neg "+fr.val(x.X).T+")")))
+				return
+			}
 			fr.set(x, ex.freshVal(ex.ls.of(x.Type()), "fneg"))
 			return
 		}
@@ -332,7 +362,9 @@ func (fr *Frame) binop(op token.Token, tx, ty types.Type, a, b *Val, pos token.P
 				c = eq(a.C[0].T, b.C[0].T)
 			}
 		default:
-			if lx.Sort == SF64 {
+			if lx.Sort == SF64 && isFloat64(tx) {
+				c = f64Bin("==", a.T, b.T)
+			} else if lx.Sort == SF64 {
 				c = ex.q.fresh("feq", SBool)
 			} else {
 				c = ex.eqVal(lx, a, b)
@@ -357,6 +389,15 @@ func (fr *Frame) binop(op token.Token, tx, ty types.Type, a, b *Val, pos token.P
 		}
 	}
 	if lx.Sort == SF64 {
+		if isFloat64(tx) {
+			if t := f64Bin(op.String(), a.T, b.T); t != "" {
+				switch op {
+				case token.LSS, token.LEQ, token.GTR, token.GEQ:
+					return sv(ex.q.def("c", SBool, t))
+				}
+				return sv(ex.q.def("f", SF64, t))
+			}
+		}
 		switch op {
 		case token.LSS, token.LEQ, token.GTR, token.GEQ:
 			return sv(ex.q.fresh("fcmp", SBool))
@@ -474,6 +515,7 @@ func (ex *Exec) strEqSym(a, b *Val) string {
 	same := and(eq(a.C[0].T, b.C[0].T), eq(a.C[1].T, b.C[1].T), eq(a.C[2].T, b.C[2].T))
 	r := ex.q.def("seq", SBool, fmt.Sprintf("(streq %s %s %s %s %s %s)", a.C[0].T, a.C[1].T, a.C[2].T, b.C[0].T, b.C[1].T, b.C[2].T))
 	ex.q.assume(implies(same, r))
+	ex.q.assume(eq(r, fmt.Sprintf("(streq %s %s %s %s %s %s)", b.C[0].T, b.C[1].T, b.C[2].T, a.C[0].T, a.C[1].T, a.C[2].T))) // symmetric
 	ex.q.assume(implies(r, eq(a.C[2].T, b.C[2].T)))
 	ex.q.assume(implies(and(eq(a.C[2].T, ex.idx(0)), eq(b.C[2].T, ex.idx(0))), r))
 	return r
@@ -527,6 +569,21 @@ func (fr *Frame) convert(x *ssa.Convert) {
 		nv := ex.freshVal(lt, "runestr")
 		fr.set(x, nv)
 	case lf.Sort == SF64 || lt.Sort == SF64:
+		switch {
+		case lf.Int != nil && isFloat64(to):
+			if t, ok := ex.ar.f64FromInt(*lf.Int, v.T); ok {
+				fr.set(x, sv(ex.q.def("f", SF64, t)))
+				return
+			}
+		case lt.Int != nil && isFloat64(from):
+			if t, ok := ex.ar.f64ToInt(*lt.Int, v.T); ok {
+				fr.set(x, sv(ex.q.def("cv", lt.Sort, t)))
+				return
+			}
+		case isFloat64(from) && isFloat64(to):
+			fr.set(x, v)
+			return
+		}
 		fr.set(x, ex.freshVal(lt, "fconv"))
 	case lf.Sort == SAddr && lt.Sort == SAddr:
 		fr.set(x, v)
@@ -620,7 +677,24 @@ func (fr *Frame) sliceOp(x *ssa.Slice) {
 
 func (fr *Frame) lookup(x *ssa.Lookup) {
 	ex := fr.ex
-	if _, isMap := x.X.Type().Underlying().(*types.Map); isMap {
+	if mt, isMap := x.X.Type().Underlying().(*types.Map); isMap {
+		if lm := fr.localMaps[x.X]; lm != nil {
+			kl, vl := ex.ls.of(mt.Key()), ex.ls.of(mt.Elem())
+			key := fr.val(x.Index)
+			val := ex.ls.zero(vl)
+			ok := "false"
+			for i := range lm.keys {
+				hit := ex.q.def("mhit", SBool, ex.eqVal(kl, key, lm.keys[i]))
+				val = ex.iteVal(vl, hit, lm.vals[i], val) // later entries win
+				ok = or(ok, hit)
+			}
+			if x.CommaOk {
+				fr.set(x, &Val{C: []*Val{val, sv(ex.q.def("mok", SBool, ok))}})
+			} else {
+				fr.set(x, val)
+			}
+			return
+		}
 		l := ex.ls.of(x.Type())
 		v := ex.freshVal(l, "mapval")
 		ex.assumeAllocated(l, v, fr.st.ctr)
@@ -688,7 +762,7 @@ func (fr *Frame) fieldLoadHook(x *ssa.UnOp, v *Val) {
 		return
 	}
 	base := fr.val(fa.X).T
-	key := "inv:" + tk + ":" + base + ":" + fr.st.epoch(typeShort(n))
+	key := fmt.Sprintf("inv:%s:%s:%s:%p:%d", tk, base, fr.st.epoch(typeShort(n)), fr, fr.cur.Index)
 	if ex.factDone[key] {
 		return
 	}
@@ -763,15 +837,29 @@ func (fr *Frame) returnSite(x *ssa.Return, rv *Val) {
 		if c.Thor && !ex.thorough {
 			continue
 		}
+		expr := c.Expr
+		retry := false
+	again:
 		func() {
 			defer func() {
 				if r := recover(); r != nil {
 					if e, ok := r.(error); ok && strings.Contains(e.Error(), "unknown identifier") {
+						// A ==> B whose B mentions a local that does not exist at this
+						// return: the site must then not satisfy A at all.
+						if b, isImp := expr.(*CBinary); isImp && b.Op == "==>" && !retry {
+							expr = &CUnary{"!", b.X}
+							retry = true
+						} else {
+							retry = false
+						}
 						return
 					}
 					panic(r)
 				}
 			}()
+			wasRetry := retry
+			retry = false
+			_ = wasRetry
 			fr.lookBlock, fr.lookAtEnd = x.Block(), true
 			cx := fr.baseCtx(fr.st)
 			cx.lookup = func(name string) (*Val, types.Type, bool) { return fr.frameLookup(name, cx.state(), nil) }
@@ -781,12 +869,19 @@ func (fr *Frame) returnSite(x *ssa.Return, rv *Val) {
 			if fr.fn.Signature.Results().Len() > 0 {
 				cx.setResult(fr.fn, rv)
 			}
-			cond := cx.evalBool(c.Expr)
+			cond := cx.evalBool(expr)
 			o := fr.oblige("returns", clauseName(c), cond, x.Pos())
 			if o != nil {
 				o.Label, o.Mode, o.Slow = c.Label, c.Mode, c.Slow
 			}
 			ex.retSiteHits[clauseName(c)]++
 		}()
+		if retry {
+			goto again
+		}
 	}
+}
+
+type localMap struct {
+	keys, vals []*Val
 }
